@@ -49,6 +49,8 @@ def expand_names(ids, rule, shape):
             return '#[ts(rename_all = "%s")] struct S { %s }' % (rule, " ".join("r#%s: u8," % i for i in group))
         if shape == "raw_variant":
             return '#[ts(rename_all = "%s")] enum E { %s }' % (rule, " ".join("r#%s," % i for i in group))
+        if shape == "tagged_struct_variant":     # the tag value written into a struct variant of an internally tagged enum
+            return '#[ts(tag = "t", rename_all = "%s")] enum E { %s }' % (rule, " ".join("%s {}," % i for i in group))
         if shape == "rename_all_fields":
             return '#[ts(rename_all_fields = "%s")] enum E { V { %s } }' % (rule, " ".join("%s: u8," % i for i in group))
         if shape == "variant_rename_all":
@@ -56,7 +58,8 @@ def expand_names(ids, rule, shape):
         raise ToolError(shape)
 
     def names_of(tokens, n):
-        names = macrodrv.unit_variant_names(tokens) if shape in ("variant", "raw_variant") else macrodrv.field_names(tokens)
+        names = (macrodrv.tag_values(tokens) if shape == "tagged_struct_variant" else
+                 macrodrv.unit_variant_names(tokens) if shape in ("variant", "raw_variant") else macrodrv.field_names(tokens))
         if len(names) == 2 * n and names[:n] == names[n:]:
             names = names[:n]        # inline() and inline_flattened() carry the same list
         if len(names) != n:
@@ -151,7 +154,7 @@ def run_core(tier, prop):
         for shape in ("rename_all_fields", "variant_rename_all"):
             for i, n in expand_names(short, rule, shape).items():
                 extra[(shape, rule, i)] = n
-        for shape, pos in (("raw_field", "field"), ("raw_variant", "variant")):
+        for shape, pos in (("raw_field", "field"), ("raw_variant", "variant"), ("tagged_struct_variant", "variant")):
             for i, n in expand_names([x for x in short if x != "_"], rule, shape).items():
                 rawx[(shape, rule, i, pos)] = n
     # both roles in one macro process, in both orders (identifiers on which nothing panics)
